@@ -262,7 +262,7 @@ def validate_file(spec, path, workdir, off=()):
     return rej, st['distinct']
 
 
-GROUPS = ['md', 'status', 'pay', 'ids', 'wire', 'ctx', 'fault', 'serve', 'pend', 'reg', 'robust']
+GROUPS = ['md', 'status', 'pay', 'ids', 'wire', 'ctx', 'fault', 'serve', 'pend', 'reg', 'letgo', 'robust']
 # which rule groups can be responsible for the rejection of which event
 EV_GROUPS = {
     'CW': ['ids', 'wire', 'md', 'pay', 'ctx'], 'SW': ['wire', 'status', 'md', 'pay'],
@@ -270,7 +270,7 @@ EV_GROUPS = {
     'HSendHdrRet': ['md'], 'HCtxDone': ['ctx'], 'URet': ['status', 'pay'], 'SOpenRet': ['fault'],
     'SSendRet': ['ctx', 'fault'], 'SCloseRet': ['fault'], 'SRecvRet': ['pay', 'status', 'ctx'],
     'SHdrRet': ['md'], 'STrl': ['md'], 'ServeRet': ['serve'], 'Hk': ['reg'],
-    'Quiesce': ['pend', 'ctx', 'robust', 'wire', 'serve', 'reg'],
+    'Quiesce': ['pend', 'ctx', 'robust', 'wire', 'serve', 'reg', 'letgo'],
 }
 
 
@@ -397,6 +397,10 @@ def match_known(known, prop, scen, rej):
         if 'k' in m and rej['event'].get('k') != m['k']:
             continue
         if 'x_re' in m and not re.search(m['x_re'], rej['event'].get('x', '')):
+            continue
+        if 'groups' in m and sorted(m['groups']) != sorted(rej.get('groups') or []):
+            continue
+        if 'h_min' in m and rej['event'].get('h', 0) < m['h_min']:
             continue
         return k
     return None
